@@ -166,7 +166,31 @@ impl<'a> PrettyPrinter<'a> {
             }
             _ => FlowItem::none(),
         })
-        .nest(self.config.tab_spaces as isize)
+        .nest(self.list_item_indent(item) as isize)
+    }
+
+    /// The indentation of the lines of an item after its first one. Typst derives the nesting
+    /// of items from indentation, so it can never be zero. And when the body starts with another
+    /// item on the line of the marker (`10. - a`), the lines of that inner item are indented
+    /// relative to its own marker, which sits one blank behind the outer marker.
+    fn list_item_indent(&self, item: &'a SyntaxNode) -> usize {
+        let indent = self.config.tab_spaces.max(1);
+        let mut children = item.children();
+        let marker_len = children.next().map_or(1, |marker| marker.text().len());
+        let starts_with_item = children
+            .find(|it| it.kind() == SyntaxKind::Markup)
+            .and_then(|body| body.children().next())
+            .is_some_and(|first| {
+                matches!(
+                    first.kind(),
+                    SyntaxKind::ListItem | SyntaxKind::EnumItem | SyntaxKind::TermItem
+                )
+            });
+        if starts_with_item {
+            indent.max(marker_len + 1)
+        } else {
+            indent
+        }
     }
 
     fn convert_markup_impl(
